@@ -24,6 +24,7 @@ pub struct Profile {
     pub w_flow: u64,
     pub w_drop_auth: u64,
     pub w_lock_scenario: u64,
+    pub w_compose_scenario: u64,
     /// recall from / burn inside observed accounts allowed?
     pub direct_vault_ops: bool,
     pub faucet_free_pct: u64,
@@ -32,10 +33,10 @@ pub struct Profile {
     pub max_len: usize,
 }
 
-pub const P_C09: Profile = Profile { name: "c09", direct_vault_ops: true, faucet_free_pct: 3, v2_pct: 50, bad_id_pct: 3, hostile_amount_pct: 25, w_proof: 2, w_assert: 6, w_flow: 10, w_drop_auth: 1, w_lock_scenario: 1, tidy_pct: 80, max_len: 22 };
-pub const P_C10: Profile = Profile { name: "c10", direct_vault_ops: true, faucet_free_pct: 3, v2_pct: 30, bad_id_pct: 1, hostile_amount_pct: 30, w_proof: 6, w_assert: 1, w_flow: 8, w_drop_auth: 1, w_lock_scenario: 8, tidy_pct: 90, max_len: 24 };
-pub const P_C36: Profile = Profile { name: "c36", direct_vault_ops: true, faucet_free_pct: 3, v2_pct: 50, bad_id_pct: 8, hostile_amount_pct: 15, w_proof: 6, w_assert: 2, w_flow: 10, w_drop_auth: 2, w_lock_scenario: 2, tidy_pct: 85, max_len: 20 };
-pub const P_C38: Profile = Profile { name: "c38", direct_vault_ops: false, faucet_free_pct: 12, v2_pct: 70, bad_id_pct: 0, hostile_amount_pct: 6, w_proof: 1, w_assert: 6, w_flow: 12, w_drop_auth: 0, w_lock_scenario: 0, tidy_pct: 97, max_len: 18 };
+pub const P_C09: Profile = Profile { name: "c09", direct_vault_ops: true, faucet_free_pct: 3, v2_pct: 50, bad_id_pct: 3, hostile_amount_pct: 25, w_proof: 2, w_assert: 6, w_flow: 10, w_drop_auth: 1, w_lock_scenario: 1, w_compose_scenario: 0, tidy_pct: 80, max_len: 22 };
+pub const P_C10: Profile = Profile { name: "c10", direct_vault_ops: true, faucet_free_pct: 3, v2_pct: 30, bad_id_pct: 1, hostile_amount_pct: 30, w_proof: 6, w_assert: 1, w_flow: 8, w_drop_auth: 1, w_lock_scenario: 8, w_compose_scenario: 5, tidy_pct: 90, max_len: 24 };
+pub const P_C36: Profile = Profile { name: "c36", direct_vault_ops: true, faucet_free_pct: 3, v2_pct: 50, bad_id_pct: 8, hostile_amount_pct: 15, w_proof: 6, w_assert: 2, w_flow: 10, w_drop_auth: 2, w_lock_scenario: 2, w_compose_scenario: 1, tidy_pct: 85, max_len: 20 };
+pub const P_C38: Profile = Profile { name: "c38", direct_vault_ops: false, faucet_free_pct: 12, v2_pct: 70, bad_id_pct: 0, hostile_amount_pct: 6, w_proof: 1, w_assert: 6, w_flow: 12, w_drop_auth: 0, w_lock_scenario: 0, w_compose_scenario: 0, tidy_pct: 97, max_len: 18 };
 
 pub struct Case {
     pub ins: Vec<Ins>,
@@ -863,6 +864,165 @@ impl<'a> Gen<'a> {
         }
     }
 
+    /// Overlapping proofs on ONE container pushed to the auth zone in ascending / descending / equal
+    /// order (optionally a second container), then a composition from the auth zone aimed at the
+    /// backing that is really there: max per container (summed over containers), one unit more,
+    /// the sum of the proofs, one unit more than the sum.
+    fn op_composition_scenario(&mut self) {
+        // a single-kind zone in a good share of cases (mixed kinds hit the known C11 trap)
+        if !self.m.auth_zone.is_empty() && self.rng.chance(4, 5) {
+            self.push(Ins::DropAzRegular);
+        }
+        let fungibles: Vec<usize> = (0..self.m.res.len()).filter(|r| self.m.res[*r].fungible).collect();
+        let nfs: Vec<usize> = (0..self.m.res.len()).filter(|r| !self.m.res[*r].fungible).collect();
+        if self.rng.chance(1, 6) && !nfs.is_empty() {
+            let rr = *self.rng.pick(&nfs);
+            return self.nf_composition(rr);
+        }
+        let r = *self.rng.pick(&fungibles);
+        let info = self.m.res[r].clone();
+        let u = info.unit();
+        let n = self.rng.range(2, 3) as usize;
+        let mut all_amounts: Vec<BigInt> = vec![];
+        let mut avail = BigInt::zero();
+        let n_containers = if self.rng.chance(1, 5) { 2 } else { 1 };
+        let via_bucket = self.rng.chance(1, 3);
+        let mut used_accts: Vec<usize> = vec![];
+        for k in 0..n_containers {
+            if self.stopped {
+                return;
+            }
+            // the container: an account vault, or a fresh bucket (first container only)
+            let mut a = self.acct();
+            while used_accts.contains(&a) {
+                a = (a + 1) % self.n_acct;
+            }
+            used_accts.push(a);
+            let bucket: Option<u32> = if via_bucket && k == 0 {
+                let v = self.m.vaults[&(a, r)];
+                let (_t, free, _, _) = self.container_amounts(v);
+                let units = (&free / &u).to_string().parse::<u64>().unwrap_or(0);
+                if units < 4 {
+                    return;
+                }
+                let x = BigInt::from(self.rng.range(4, units.min(60))) * &u;
+                self.push(Ins::Withdraw { acct: a, res: r, amount: to_dec(&x) });
+                if self.stopped {
+                    return;
+                }
+                self.push(Ins::TakeAll { res: r });
+                self.m.buckets.keys().next_back().cloned()
+            } else {
+                None
+            };
+            if self.stopped {
+                return;
+            }
+            let c = match bucket {
+                Some(b) => self.m.buckets[&b],
+                None => self.m.vaults[&(a, r)],
+            };
+            let (total, _, _, _) = self.container_amounts(c);
+            let units = (&total / &u).to_string().parse::<u64>().unwrap_or(0);
+            if units < 3 {
+                return;
+            }
+            // amounts in the chosen order
+            let hi = units.min(40);
+            let mut xs: Vec<u64> = (0..n).map(|_| self.rng.range(1, hi)).collect();
+            match self.rng.below(4) {
+                0 | 1 => {
+                    xs.sort();
+                    xs.dedup();
+                    while xs.len() < n {
+                        let last = *xs.last().unwrap();
+                        if last + 1 > units {
+                            break;
+                        }
+                        xs.push(last + 1);
+                    }
+                } // ascending (strictly)
+                2 => {
+                    xs.sort();
+                    xs.reverse();
+                } // descending
+                _ => {
+                    let x = xs[0];
+                    xs = vec![x; n];
+                } // equal
+            }
+            let mut mx = BigInt::zero();
+            for x in xs {
+                if self.stopped {
+                    return;
+                }
+                let amt = BigInt::from(x) * &u;
+                match bucket {
+                    Some(b) => {
+                        self.push(Ins::ProofFromBucketAmount { bucket: b, amount: to_dec(&amt) });
+                        if self.stopped {
+                            return;
+                        }
+                        let p = self.m.next_proof - 1;
+                        self.push(Ins::PushAz { proof: p });
+                    }
+                    None => self.push(Ins::AcctProofAmount { acct: a, res: r, amount: to_dec(&amt) }),
+                }
+                if amt > mx {
+                    mx = amt.clone();
+                }
+                all_amounts.push(amt);
+            }
+            avail += mx;
+        }
+        if self.stopped {
+            return;
+        }
+        let sum: BigInt = all_amounts.iter().sum();
+        let ins = match self.rng.below(12) {
+            0 | 1 => Ins::ProofFromAzAmount { res: r, amount: to_dec(&avail) },
+            2 | 3 | 4 => Ins::ProofFromAzAmount { res: r, amount: to_dec(&(&avail + &u)) },
+            5 | 6 => Ins::ProofFromAzAmount { res: r, amount: to_dec(&sum) },
+            7 => Ins::ProofFromAzAmount { res: r, amount: to_dec(&(&sum + &u)) },
+            8 => Ins::ProofFromAzAmount { res: r, amount: to_dec(&(&avail - &u).max(u.clone())) },
+            9 => Ins::ProofFromAzAmount { res: r, amount: to_dec(&(&avail + 1u32)) },
+            10 => Ins::ProofFromAzAmount { res: r, amount: to_dec(all_amounts.last().unwrap()) },
+            _ => Ins::ProofFromAzAll { res: r },
+        };
+        self.push(ins);
+        // sometimes compose again on top (the composed proof is a named proof, the base is unchanged)
+        if !self.stopped && self.rng.chance(1, 4) {
+            self.push(Ins::ProofFromAzAmount { res: r, amount: to_dec(&(&avail + &u)) });
+        }
+    }
+
+    fn nf_composition(&mut self, r: usize) {
+        let a = self.acct();
+        let v = self.m.vaults[&(a, r)];
+        let (_, _, ids, _) = self.container_amounts(v);
+        let ids: Vec<u64> = ids.into_iter().collect();
+        if ids.len() < 3 {
+            return;
+        }
+        // two overlapping id proofs {0,1} and {1,2}
+        self.push(Ins::AcctProofNf { acct: a, res: r, ids: vec![ids[0], ids[1]] });
+        if self.stopped {
+            return;
+        }
+        self.push(Ins::AcctProofNf { acct: a, res: r, ids: vec![ids[1], ids[2]] });
+        if self.stopped {
+            return;
+        }
+        let ins = match self.rng.below(5) {
+            0 => Ins::ProofFromAzNf { res: r, ids: vec![ids[0], ids[1], ids[2]] },
+            1 if ids.len() > 3 => Ins::ProofFromAzNf { res: r, ids: vec![ids[0], ids[3]] }, // ids[3] is in the vault but not proven
+            2 => Ins::ProofFromAzNf { res: r, ids: vec![ids[2], 9_300_000] },
+            3 => Ins::ProofFromAzAll { res: r },
+            _ => Ins::ProofFromAzNf { res: r, ids: vec![ids[1]] },
+        };
+        self.push(ins);
+    }
+
     fn op_drop_auth(&mut self) {
         let ins = match self.rng.below(6) {
             0 => Ins::DropAzProofs,
@@ -997,7 +1157,7 @@ pub fn generate(rng: &mut Rng, p: &Profile, res: &[ResInfo], holdings: &BTreeMap
         let w_bsink = if have_buckets { p.w_flow * 2 } else { p.w_flow / 8 };
         let w_wsink = if have_wt { p.w_flow / 2 } else { p.w_flow / 8 };
         let w_direct = if p.direct_vault_ops { p.w_flow / 4 } else { 0 };
-        let ws = [w_source, w_take, w_bsink, w_wsink, p.w_assert, p.w_proof, p.w_drop_auth, w_direct, p.w_lock_scenario, p.w_lock_scenario];
+        let ws = [w_source, w_take, w_bsink, w_wsink, p.w_assert, p.w_proof, p.w_drop_auth, w_direct, p.w_lock_scenario, p.w_lock_scenario, p.w_compose_scenario];
         let total: u64 = ws.iter().sum();
         let mut x = g.rng.below(total.max(1));
         let mut k = 0;
@@ -1015,7 +1175,8 @@ pub fn generate(rng: &mut Rng, p: &Profile, res: &[ResInfo], holdings: &BTreeMap
             6 => g.op_drop_auth(),
             7 => g.op_account_direct(),
             8 => g.op_vault_lock_scenario(),
-            _ => g.op_bucket_lock_scenario(),
+            9 => g.op_bucket_lock_scenario(),
+            _ => g.op_composition_scenario(),
         }
     }
     if !g.stopped && g.rng.below(100) < p.tidy_pct {
